@@ -81,6 +81,8 @@ def case(draw):
             net["params"]["ellipsoid"] = draw(st.sampled_from(["wgs84", "bessel", "grs80", "krassovski"]))
     if draw(st.integers(0, 3)) == 0:
         gen_net.apply_implicit_stdevs(draw, net)
+    if draw(st.integers(0, 4)) == 0:
+        net["epoch"] = draw(st.sampled_from(["2021.5", "0", "1999.123456789", "-3.25", "2024"]))
     return {"net": net, "alg": draw(st.sampled_from(ALGS + [None])), "mode": mode, "alone": draw(st.integers(0, 2))}
 
 
@@ -165,6 +167,9 @@ def compare_inputs(tag, A, B, stats, strict_coords=False, cmd_alg=None):
     fails = []
     if A["axes"] != B["axes"] or A["angles"] != B["angles"]:
         fails.append("%s.frame: %s/%s vs %s/%s" % (tag, A["axes"], A["angles"], B["axes"], B["angles"]))
+    ea, eb = A.get("epoch"), B.get("epoch")
+    if (ea is None) != (eb is None) or (ea is not None and not num_eq(fl(ea), fl(eb), 1e-12, 1e-12)):
+        fails.append("%s.epoch: %s vs %s" % (tag, ea, eb))
     if (A["description"] or "").strip() != (B["description"] or "").strip():
         fails.append("%s.description: %r vs %r" % (tag, A["description"], B["description"]))
     pa, pb = A["params"], B["params"]
